@@ -162,7 +162,7 @@ static int me_case(const struct me_in *w)
 		long long exp = w->v == ']' ? BELOW(w->top) : w->value;
 		if (now.type != VALUE_INT64 || now.i != exp) { snprintf(why, sizeof(why), "after the accepted mark event the channel of the type shows %lld (value type %d), specified the 64-bit value %lld", (long long) now.i, (int) now.type, exp); bad = 1; }
 		else if (w->ch_type == CHAN_STACK && c->data.stack.n != depth + (w->v == '[' ? 1 : -1)) { snprintf(why, sizeof(why), "stack depth went %d -> %d", depth, c->data.stack.n); bad = 1; }
-		for (long k = 0; !bad && k < nt; k++) if (k != index && chan_dirty(&ch[k])) { snprintf(why, sizeof(why), "the channel of ANOTHER mark type (index %ld) was written", k); bad = 1; }
+		for (long k = 0; !bad && k < nt; k++) if (k != index && ch[k].is_dirty) { snprintf(why, sizeof(why), "the channel of ANOTHER mark type (index %ld) was written", k); bad = 1; }
 	}
 	free(ch); free_types(&oemu.mark);
 	return bad;
